@@ -262,7 +262,12 @@ def parse_currency_data(s):
     for c in cs:
         if len(c) < 3:
             return None
-        result.append(CurrencyData(c[0], c[1], float(c[2])))
+        rate = float(c[2])
+        if not rate > 0:
+            # Not a usable rate (units.py divides by it): treat the
+            # table as unreadable, the caller falls back to the default.
+            return None
+        result.append(CurrencyData(c[0], c[1], rate))
     return result
     
 if __name__ == "__main__":
